@@ -415,7 +415,12 @@ impl Watcher {
             // WARNING(deadlock): Don't lock `self.dbm` over the loop since `Responder::handle_breach` uses it as well.
             let uuids = self.dbm.lock().unwrap().load_uuids(locator);
             for uuid in uuids {
-                let appointment = self.dbm.lock().unwrap().load_appointment(uuid).unwrap();
+                // The appointment may have been dropped since its uuid was loaded (e.g. replaced through the API by a version
+                // that was triggered straightaway and rejected by the node). Nothing to respond to then.
+                let appointment = match self.dbm.lock().unwrap().load_appointment(uuid) {
+                    Some(appointment) => appointment,
+                    None => continue,
+                };
                 match cryptography::decrypt(
                     appointment.encrypted_blob(),
                     &dispute_tx.compute_txid(),
